@@ -15,6 +15,18 @@ RULE = ("cases = (estimator class, hyper-parameters, data set, match-tracking mo
         "(class, params, data, mode, eps, veto table)")
 
 
+GEN_THEOREMS = ["base_match_tracking", "dual_match_tracking", "topo_match_tracking", "cviart_match_tracking",
+                "bayes_match_tracking", "operator_strict", "base_match_bin", "bayes_match_bin"]
+
+
+def prepare(ctx):
+    """Translator tie (see gen_tie.py): the match-tracking table, the comparison operator per mode and the
+    orientation of the binary match test are regenerated from the source and proved equal to the model's"""
+    from .gen_tie import gen_prepare
+    gen_prepare(ctx, GEN_THEOREMS, "_match_tracking of BaseART / BayesianART / DualVigilanceART / TopoART / CVIART, "
+                "_match_tracking_operator, match_criterion_bin of BaseART and BayesianART")
+
+
 def build_est(r, cls, d, fusion_ok=True):
     """returns (estimator, recorder, X, inv list, rho list, label)"""
     if cls == "FusionART":
